@@ -531,7 +531,7 @@ def alt_seed(base, seed, tag=b"'"):
 def reseeded(base, M=None, N=None, S=None, name=None):
     """same group object, other seeds"""
     L = lib()
-    seeds = (M or base.rp.seeds[0], N or base.rp.seeds[1], S or base.rp.seeds[2])
+    seeds = (base.rp.seeds[0] if M is None else M, base.rp.seeds[1] if N is None else N, base.rp.seeds[2] if S is None else S)
     P = L.params._Params(base.group, M=seeds[0], N=seeds[1], S=seeds[2])
     rp = RefParams(base.ref, *seeds)
     inst = Inst(name or base.name + "'", base.kind, P, base.ref, rp, base.small,
@@ -575,6 +575,8 @@ def build_inst(desc):
         return ed_toy(desc["Q"], desc["d"], desc["L"], tuple(bytes.fromhex(s) for s in desc["seeds"]))
     if mk == "shipped":
         return shipped(desc["name"])
+    if mk in ("int_group", "ed_group"):
+        return get_group(desc["name"])
     if mk == "wrapped":
         base = build_inst(desc["base"])
         pw_map = {bytes.fromhex(k): int(v) for k, v in desc["pw_map"].items()}
@@ -588,10 +590,40 @@ def build_inst(desc):
 
 
 def try_get(name):
-    """(inst, None) or (None, reason) - rule 4: degrade, don't fail"""
+    """(inst, None) or (None, reason) - rule 4: degrade, don't fail.  A reason starting with 'LIB:' means the library itself
+    raised while building a parameter set over a VALID group through its public API (IntegerGroup / _Params)."""
     try:
         return get(name), None
     except HarnessError as e:
         return None, str(e)
-    except Exception as e:  # library refuses the toy instance: not a property of the list
-        return None, "%s: %s" % (type(e).__name__, e)
+    except Exception as e:
+        return None, "LIB:%s: %s" % (type(e).__name__, e)
+
+
+def lib_refuses_valid_group(name, why):
+    """True when an integer toy instance - a valid (p, q, g) with reference-chosen, well-defined seeds, built only through the
+    public IntegerGroup/_Params API - cannot be constructed because the library raises"""
+    return name in INT_TOYS and isinstance(why, str) and why.startswith("LIB:")
+
+
+class GroupOnly:
+    """a library group bound to its reference group, without a parameter set (C15 needs nothing else)"""
+
+    def __init__(self, name, kind, group, ref, small, desc):
+        self.name, self.kind, self.group, self.ref, self.small, self.desc = name, kind, group, ref, small, desc
+        self.q = ref.q
+
+
+def get_group(name):
+    L = lib()
+    if name in INT_TOYS:
+        p, q = INT_TOYS[name]
+        g = _smallest_generator(p, q)
+        return GroupOnly(name, "int", L.groups.IntegerGroup(p=p, q=q, g=g), RefIntGroup(p, q, g), True,
+                         {"make": "int_group", "p": p, "q": q, "g": g, "name": name})
+    if name.startswith("E") and name[1:].isdigit():
+        cur = [c for c in TOY_CURVES if c[0] == int(name[1:])][0]
+        grp, m, R = load_toy_ed_group(*cur)
+        return GroupOnly(name, "ed", grp, R, True, {"make": "ed_group", "Q": cur[0], "d": cur[1], "L": cur[2], "name": name})
+    inst = get(name)
+    return GroupOnly(name, inst.kind, inst.group, inst.ref, False, inst.desc)
